@@ -112,7 +112,15 @@ def bounded(ctx):
     # (1) typing: every kit class on a structure instance in four spellings
     classes = gen.concrete_classes(kits)
     for cls in classes:
-        for s in be.class_records(cls, rng, count=1 if ctx.tier == "quick" else 3):
+        recs = be.class_records(cls, rng, count=1 if ctx.tier == "quick" else 3)
+        # the same plasmid with a further recognition site of the class's cutter inside the matched region (an illegal
+        # plasmid when the site's cut falls in the target): the verdict must not depend on how that site is spelled
+        site, a_, k_ = be.enzyme_geometry(cls.cutter)
+        for s in list(recs[:1]):
+            mid = len(s) // 2
+            recs.append(s[:mid] + site + "A" * (a_ + k_ + 2) + s[mid:])
+            recs.append(s[:mid] + "T" * (a_ + k_ + 2) + gen.rc(site) + s[mid:])
+        for s in recs:
             ref = be.observe_entity(cls(CircularRecord(Seq(s.upper()), id="r")))
             for mode in ("lower", "mixed", "mixed"):
                 evals += 1
